@@ -84,7 +84,7 @@ impl<'a> SegmentQueryRunner<'a> {
 
     /// Evaluates zones to produce matching events.
     fn evaluate_zones(&self, zones: Vec<CandidateZone>, limit: Option<usize>) -> Vec<Event> {
-        let evaluator = ConditionEvaluatorBuilder::build_from_plan(self.plan);
+        let evaluator = ConditionEvaluatorBuilder::build_for_zones(self.plan);
         evaluator.evaluate_zones_with_limit(zones, limit)
     }
 
@@ -112,7 +112,7 @@ impl<'a> SegmentQueryRunner<'a> {
         let query_ctx = QueryContext::from_command(&self.plan.command);
         let candidate_zones = self.hydrate_zones(&query_ctx).await;
         let eval_limit = self.determine_eval_limit(&query_ctx);
-        let evaluator = ConditionEvaluatorBuilder::build_from_plan(self.plan);
+        let evaluator = ConditionEvaluatorBuilder::build_for_zones(self.plan);
 
         // For aggregate queries, ordering happens after aggregation in AggregateStreamMerger.
         // For non-aggregate queries, ordering can happen at the shard level.
